@@ -11,8 +11,16 @@ def gen_sites():
     C.gen_sites("C03", C03_FILES)
 
 
+# Props/C03.lean imports Props/C04, C05, C14, whose translated definitions (Hy/Gen/Trans*.lean) must be
+# regenerated from the tree under check before the build
+# (their other regenerated facts too: a file left behind by a run on another tree would be built against)
+from .C04 import gen_sites as gen_sites_c04, gen_trans_varint  # noqa: E402
+from .C05 import gen_send_shape, gen_trans_udpsize  # noqa: E402
+from .C14 import gen_trans_gecko  # noqa: E402
+
+
 CFG = {
-    "gen_hooks": [gen_sites],
+    "gen_hooks": [gen_sites, gen_sites_c04, gen_send_shape, gen_trans_varint, gen_trans_udpsize, gen_trans_gecko],
     "props_module": "Hy.Props.C03",
     "extra_props_modules": ["Hy.Props.C03Speedtest"],
     # C03 is about crashes: of the borrowed components' oracles only the panic clauses count here
